@@ -38,6 +38,13 @@ def run(ctx):
 
 def check(ctx, nrt_progs, rt_progs, mine, sigf, pid):
     rt_in = [dict(p, strategy=dict(kind='random' if p['id'] % 4 else 'pct', seed=ctx.seed * 7919 + p['id'])) for p in rt_progs]
+    hist = {}
+    for p in nrt_progs + rt_progs:
+        for b in list(p['routines'].values()) + [p['main']]:
+            for i in b:
+                k = i['op'] + ('q' if i['op'] == 'P' and i['a'] else '') + ('x' if i['op'] == 'P' and i['c'] else '')
+                hist[k] = hist.get(k, 0) + 1
+    ctx.cov['instruction_histogram'] = dict(sorted(hist.items()))
     tn = T.run_mode(ctx, nrt_progs, 'nrt')
     tr = T.run_mode(ctx, rt_in, 'rt')
     ctx.cov['evaluations'] += len(tn) + len(tr)
